@@ -54,8 +54,11 @@ MUTANTS = [
  ("c20-anonymous-always", ["C20"], L+"server/state.rs", "} else if !endpoint.supports_anonymous() {", "} else if false && !endpoint.supports_anonymous() {"),
  ("c20-skip-nonce-compare", ["C20"], L+"crypto/user_identity.rs", "            if nonce != server_nonce {", "            if false && nonce != server_nonce {"),
  ("c21-newest-request-first", ["C21"], L+"server/subscriptions/subscriptions.rs", "let publish_request = self.publish_request_queue.pop_back().unwrap();", "let publish_request = self.publish_request_queue.pop_front().unwrap();"),
- ("c22-no-keepalive-reset", ["C22"], L+"server/subscriptions/subscription.rs", "                    self.start_publishing_timer();\n                    self.reset_keep_alive_counter();\n                    return UpdateStateResult::new(\n                        HandledState::KeepAlive15,", "                    self.start_publishing_timer();\n                    return UpdateStateResult::new(\n                        HandledState::KeepAlive15,"),
- ("c22-lifetime-zero", ["C22"], L+"server/subscriptions/subscription.rs", "if self.lifetime_counter == 1 {", "if self.lifetime_counter == 0 {"),
+ # benign for the property: without the reset a keep-alive is sent every interval, which still satisfies "at least once every max-keep-alive-count intervals"
+ ("c22-no-keepalive-reset-BENIGN", [], L+"server/subscriptions/subscription.rs", "                    self.start_publishing_timer();\n                    self.reset_keep_alive_counter();\n                    return UpdateStateResult::new(\n                        HandledState::KeepAlive15,", "                    self.start_publishing_timer();\n                    return UpdateStateResult::new(\n                        HandledState::KeepAlive15,"),
+ # "== 0" only shifts the expiry by one interval, inside the slack the property grants; "never expires" is the real break
+ ("c22-never-expires", ["C22"], L+"server/subscriptions/subscription.rs", "if self.lifetime_counter == 1 {", "if self.lifetime_counter == u32::MAX {"),
+ ("c22-expires-at-half-lifetime", ["C22"], L+"server/subscriptions/subscription.rs", "if self.lifetime_counter == 1 {", "if self.lifetime_counter <= self.max_lifetime_counter / 2 {"),
  ("c24-discard-wrong-end", ["C24"], L+"server/subscriptions/monitored_item.rs", "                let _ = self.notification_queue.pop_front();\n            } else {\n                // Remove the latest notification\n                self.notification_queue.pop_back();", "                let _ = self.notification_queue.pop_back();\n            } else {\n                // Remove the latest notification\n                self.notification_queue.pop_front();"),
  ("c24-full-test", ["C24"], L+"server/subscriptions/monitored_item.rs", "let overflow = if self.notification_queue.len() == self.queue_size {", "let overflow = if self.notification_queue.len() > self.queue_size {"),
  ("c25-abs-compare-strict", ["C25"], L+"types/service_types/impls.rs", "        diff <= threshold_diff\n", "        diff < threshold_diff\n"),
@@ -76,6 +79,13 @@ MUTANTS = [
  ("c34-good-before-parent-check", ["C34"], L+"server/services/node_management.rs", "            if item.parent_node_id.server_index != 0\n                || !address_space.node_exists(&item.parent_node_id.node_id)\n            {", "            if item.parent_node_id.server_index != 0\n            {"),
  ("c40-ack-ignores-subscription", ["C40"], L+"server/subscriptions/subscriptions.rs", "if self.retransmission_queue.remove(&(subscription_id, sequence_number)).is_some() {", "if { let k = self.retransmission_queue.keys().find(|k| k.1 == sequence_number).cloned(); k.map(|k| self.retransmission_queue.remove(&k)).is_some() } {"),
  ("c40-republish-newest", ["C40"], L+"server/subscriptions/subscriptions.rs", "            if let Some(notification_message) = self\n                .retransmission_queue\n                .get(&(subscription_id, sequence_number))\n            {", "            if let Some(notification_message) = self\n                .retransmission_queue\n                .iter().filter(|(k, _)| k.0 == subscription_id && sequence_number > 0).map(|(_, v)| v).last()\n            {"),
+ ("c18-rejected-check-skipped", ["C18"], L+"crypto/certificate_store.rs", "            cert_path.push(&cert_file_name);\n            if cert_path.exists() {\n                warn!(\n                    \"Certificate {} is untrusted because", "            cert_path.push(&cert_file_name);\n            if false && cert_path.exists() {\n                warn!(\n                    \"Certificate {} is untrusted because"),
+ ("c18-no-byte-compare", ["C18"], L+"crypto/certificate_store.rs", "                    der == file_der\n", "                    der.len() == file_der.len()\n"),
+ ("c18-keylength-after-skip", ["C18"], L+"crypto/certificate_store.rs", "                    if !security_policy.is_valid_keylength(key_length) {", "                    if !self.skip_verify_certs && !security_policy.is_valid_keylength(key_length) {"),
+ ("c18-check-time-only-expiry", ["C18"], L+"crypto/x509.rs", "            if now.lt(&not_before) {", "            if false && now.lt(&not_before) {"),
+ ("c18-untrusted-not-stored", ["C18"], L+"crypto/certificate_store.rs", "                    let _ = self.store_rejected_cert(cert);\n                    return StatusCode::BadCertificateUntrusted;", "                    return StatusCode::BadCertificateUntrusted;"),
+ ("c18-uri-ignored-when-host-given", ["C18"], L+"crypto/certificate_store.rs", "            if let Some(application_uri) = application_uri {", "            if let Some(application_uri) = application_uri.filter(|_| hostname.is_none()) {"),
+ ("c18-missing-file-is-match", ["C18"], L+"crypto/certificate_store.rs", "                    // No cert2 to compare to\n                    false", "                    // No cert2 to compare to\n                    true"),
  ("c09-remove-size-check", ["C09"], L+"core/comms/secure_channel.rs", "            if message_size < encrypted_data_offset + signature_size {", "            if false && message_size < encrypted_data_offset + signature_size {"),
 ]
 
